@@ -462,4 +462,59 @@ theorem inv_take {s : Sys} {t : Nat} {x x' : Task} {it : Item} {rest : List Item
           at dPt dPf dWt dWf dI dO dF dR dC hgeI hgeW hnd hwk <;>
         num_close h
 
+/-- `task.cancel()` / the `wait_for` timer firing -/
+theorem inv_cancel_task {s : Sys} (h : Inv s) (tgt : Nat) (timer : Bool) : Inv (cancelTask s tgt timer) := by
+  unfold cancelTask
+  cases hy : s.tasks[tgt]? with
+  | none => exact h
+  | some y =>
+    simp only
+    cases hf : y.code.isFlusher with
+    | true => simpa using h
+    | false =>
+      simp only [Bool.false_eq_true, if_false]
+      have hnf : y.code ≠ .flusher none := by intro e; rw [e] at hf; simp [Code.isFlusher] at hf
+      have key : ∀ (x' : Task), x'.code = y.code → y.wait ≠ .done →
+          ((∃ g, y.wait = .blocked g .pending ∧ x'.wait = .blocked g .cancelled ∧ x'.mustCancel = y.mustCancel) ∨
+           ((∀ g, y.wait ≠ .blocked g .pending) ∧ x'.wait = y.wait ∧ x'.mustCancel = true)) →
+          Inv { s.setTask tgt x' with cancels := s.cancels + 1 } := by
+        intro x' hc' hnd hcase
+        obtain ⟨dP, dW, dI, dO, dF, dR, dC⟩ := delta x' hy
+        have dPt := dP true; have dPf := dP false; have dWt := dW true; have dWf := dW false
+        clear dP dW
+        have hw'np : ∀ g, x'.wait ≠ .blocked g .pending := by
+          intro g hg
+          rcases hcase with ⟨g', _, h2, _⟩ | ⟨h1, h2, _⟩
+          · rw [h2] at hg; cases hg
+          · rw [h2] at hg; exact h1 g hg
+        constructor
+        · refine sinv_frame h.st hy rfl rfl rfl rfl rfl rfl (by rw [hc']; exact Nat.le_refl _) ?_ ?_ ?_
+          · intro hf'; rw [hc', hf] at hf'; cases hf'
+          · exact mem_dq_same _ _ rfl rfl
+          · intro g hg; exact absurd hg (hw'np g)
+        · rcases hcase with ⟨g, h1, h2, h3⟩ | ⟨h1, h2, h3⟩
+          · cases g <;>
+              simp [mPend, mWok, mInGet, mOwed, mFresh, mRecvDone, mCanc, Wait.inGet, Wait.isCancelled, h1, h2, h3, hc', hnf]
+                at dPt dPf dWt dWf dI dO dF dR dC <;>
+              num_close h
+          · have e1 : ∀ g, mPend g x' = mPend g y := by intro g; simp [mPend, h2]
+            have e2 : ∀ g, mWok g x' = mWok g y := by intro g; simp [mWok, h2]
+            have e3 : mInGet x' = mInGet y := by simp [mInGet, h2]
+            have e4 : mOwed x' = mOwed y := by simp [mOwed, h2, hc']
+            have e5 : mFresh x' = 0 := by simp [mFresh, h3]
+            have e5' : mFresh y = 0 := by simp [mFresh, hnf]
+            have e6 : mRecvDone x' = mRecvDone y := by simp [mRecvDone, h2, hc']
+            rw [e1] at dPt dPf; rw [e2] at dWt dWf; rw [e3] at dI; rw [e4] at dO; rw [e5, e5'] at dF; rw [e6] at dR
+            clear dC
+            num_close h
+      cases hw : y.wait with
+      | done => simpa using h
+      | ready =>
+        exact key _ rfl (fun e => by rw [hw] at e; cases e) (Or.inr ⟨(fun g e => by rw [hw] at e; cases e), hw.symm, rfl⟩)
+      | blocked g f =>
+        cases f with
+        | pending => exact key _ rfl (fun e => by rw [hw] at e; cases e) (Or.inl ⟨g, hw, rfl, rfl⟩)
+        | woken => exact key _ rfl (fun e => by rw [hw] at e; cases e) (Or.inr ⟨(fun g' e => by rw [hw] at e; cases e), hw.symm, rfl⟩)
+        | cancelled => exact key _ rfl (fun e => by rw [hw] at e; cases e) (Or.inr ⟨(fun g' e => by rw [hw] at e; cases e), hw.symm, rfl⟩)
+
 end Bp.Chan
